@@ -423,7 +423,34 @@ type c11Vio struct {
 	Replay map[string]any `json:"replay"`
 }
 
+// c11DocPrograms: programs whose namespaces declare DIFFERENT relations, with union-typed traversed relations.
+func c11DocPrograms() []*Prog {
+	unionTrav := &Prog{NS: []NSDecl{
+		{Name: "U"},
+		{Name: "A",
+			Rels:  []RelDecl{{"ra", []TypeRef{{"U", ""}}}, {"par", []TypeRef{{"A", ""}, {"B", ""}}}},
+			Perms: []PermDecl{{"v", Bin('|', Atom(LIncludes, "ra", ""), Atom(LTravPermits, "par", "v"))}}},
+		{Name: "B",
+			Rels:  []RelDecl{{"rb", []TypeRef{{"U", ""}}}},
+			Perms: []PermDecl{{"v", Atom(LIncludes, "rb", "")}}},
+	}}
+	unionTrav2 := &Prog{NS: []NSDecl{
+		{Name: "U"},
+		{Name: "B",
+			Rels:  []RelDecl{{"rb", []TypeRef{{"U", ""}}}, {"up", []TypeRef{{"B", ""}}}},
+			Perms: []PermDecl{{"v", Bin('&', Atom(LIncludes, "rb", ""), Not(Atom(LTravPermits, "up", "v")))}}},
+		{Name: "A",
+			Rels:  []RelDecl{{"ra", []TypeRef{{"U", ""}}}, {"par", []TypeRef{{"B", ""}, {"A", ""}}}},
+			Perms: []PermDecl{{"v", Bin('&', Not(Atom(LIncludes, "ra", "")), Atom(LTravPermits, "par", "v"))}, {"w", Atom(LTravRelated, "par", "rb2")}}},
+	}}
+	// rb2 must exist in both members of the union for the second program to type-check
+	unionTrav2.NS[1].Rels = append(unionTrav2.NS[1].Rels, RelDecl{"rb2", []TypeRef{{"U", ""}}})
+	unionTrav2.NS[2].Rels = append(unionTrav2.NS[2].Rels, RelDecl{"rb2", []TypeRef{{"U", ""}}})
+	return []*Prog{specExampleProg(), secondProg(), unionTrav, unionTrav2}
+}
+
 type c11Report struct {
+	DocPrograms                       int `json:"doc_programs"`
 	Programs, Accepted, Rejected      int64
 	Mutations, MutationsRejectedOK    int64
 	EnginePrograms, TupleSets, Checks int64
@@ -951,6 +978,27 @@ func c11Shard(t *testing.T, shard, of int, outPath string) {
 	}()
 	countOnly := os.Getenv("VERIF_C11_COUNT") != ""
 	seenSpace := map[int]bool{}
+	// documentation-shaped programs first (the grammar below gives every namespace the SAME relation
+	// names; here namespaces declare different relations and a traversed relation is a union of
+	// namespaces, as in the docs' File/Folder example): all conforming tuple sets of <= 3 tuples
+	if extra := c11DocPrograms(); !countOnly {
+		for k, p := range extra {
+			if k%of != shard {
+				continue
+			}
+			toks := p.Tokens(c11Style)
+			text, _ := Join(toks, LayoutPretty, -1, "")
+			if errs, panicked := c11Parse(text); panicked != nil || len(errs) > 0 {
+				fmt.Printf("INFRA-ERROR C11 documentation-shaped program %d is not accepted: %v %v\n%s\n", k, panicked, errs, text)
+				os.Exit(2)
+			}
+			rep.DocPrograms++
+			if err := eng.runProgram(-1-k, p, text, 3); err != nil {
+				fmt.Printf("INFRA-ERROR C11 shard %d, documentation-shaped program %d: %v\n%s\n", shard, k, err, text)
+				os.Exit(2)
+			}
+		}
+	}
 	for i := 0; i < total; i++ {
 		// pseudo-random but fixed assignment of indices to shards (i mod W correlates with the first slot's option and unbalances the shards)
 		if int((uint32(i)*2654435761)>>12)%of != shard {
